@@ -13,7 +13,7 @@ struct C16 : Check {
 	const char *id() const override { return "C16"; }
 	std::string rule() const override {
 		return "'vi -v' (and some 'vi -s -e') sessions over lines of 1-4 byte characters (Latin-1, CJK, emoji, Arabic, combining): character-wise commands x X r<mb> ~ p P cw dw D s S J, f/t/F/T with multi-byte targets, ; , h l w b e $ 0 |, "
-			"inserts of multi-byte text with ^H ^W ^U ^V<mb>, . and counts, yanks into registers and puts, :s with . and sets, / searches, u and ^R, then :w. Invariants at every quiescent point: every buffer line, every register a-z 0-9 and unnamed, and every file the editor wrote is strictly valid UTF-8 "
+			"inserts of multi-byte text with ^H ^W ^U ^V<mb>, . and counts, yanks into registers and puts, :s with . and sets, / searches, u and ^R, then :w; in a third of the vi plans SIGWINCH arrives at a seeded system call of a step, also interrupting the poll() between two bytes of one character. Invariants at every quiescent point: every buffer line, every register a-z 0-9 and unnamed, and every file the editor wrote is strictly valid UTF-8 "
 			"(no overlongs, no surrogates, <= U+10FFFF), and every character in the buffer is one that occurred in the files or in the typed text (no character is created by cutting others). The first sentence of C16 (helper algebra over all scalar values) is NOT decided here. "
 			"non-trivial = at least one invariant evaluation after a modifying step; distinct = distinct event-log fingerprints";
 	}
@@ -114,7 +114,19 @@ struct C16 : Check {
 			s.meta.set("k", "mod");
 			p.steps.push_back(s);
 		}
-		Step w = ex_step(p, "w! OUT"); w.meta = Json::obj(); w.meta.set("k", "write"); p.steps.push_back(w);
+		// a window resize at an arbitrary system call of a step, also between the bytes of one character
+		// (the poll() waiting for the next byte is interrupted): no command may cut or lose part of a character
+		if (vi && r.chance(1, 3)) {
+			int nf = (int) r.range(1, 2);
+			for (int k = 0; k < nf; k++) {
+				Fault f; f.seam = "any"; f.nth = (int) r.below(r.chance(1, 2) ? 16 : 60); f.effect = "sigwinch";
+				f.arg = r.range(4, 30); f.arg2 = r.range(10, 100); f.err = r.chance(2, 3);
+				p.steps[(size_t) r.below(p.steps.size())].faults.push_back(f);
+			}
+		}
+		Step w = ex_step(p, "w! OUT"); w.meta = Json::obj(); w.meta.set("k", "write");
+		if (vi) w.keys = "\x1b\x1b" + w.keys;	// a resize may have left an operator pending: w ! would be read as commands
+		p.steps.push_back(w);
 		return p;
 	}
 
